@@ -142,15 +142,10 @@ func toModes(s []string) ([]fakeprom.Mode, error) {
 	}
 	out := make([]fakeprom.Mode, len(s))
 	for i, x := range s {
-		ok := false
-		for _, m := range fakeprom.Modes {
-			if string(m) == x {
-				out[i], ok = m, true
-			}
-		}
-		if !ok {
+		if !fakeprom.Mode(x).Valid() {
 			return nil, fmt.Errorf("%w: unknown mode %q", errInconclusive, x)
 		}
+		out[i] = fakeprom.Mode(x)
 	}
 	return out, nil
 }
@@ -229,6 +224,34 @@ func callVariant(fg *promapi.FailoverGroup, endpoint string, slices, variant int
 	return a
 }
 
+// Known-finding class "5xx-json-error-type-not-server-error": an upstream answers a 5xx status with a complete JSON
+// error envelope whose errorType is not "server_error" (Prometheus itself says "internal" with 500 and "unavailable"
+// with 503). By the statement a 5xx is a server error whatever the body says; pint goes by the errorType alone.
+// Decided from the case: the mode of the upstream concerned is http:5xx:json-<type other than server_error>.
+const class5xxJSON = "5xx-json-error-type-not-server-error"
+
+func is5xxJSONOther(m fakeprom.Mode) bool {
+	code, body, ok := m.HTTP()
+	return ok && code/100 == 5 && strings.HasPrefix(body, "json-") && body != "json-server_error"
+}
+
+// tolerate5xxJSON: the class is listed as a known finding, so such an upstream may be treated either way (the
+// occasions on which pint does NOT treat it as unavailable are counted as hits); otherwise it must be unavailable.
+var tolerate5xxJSON = func() bool { _, ok := vstat.KnownClasses(prop)[class5xxJSON]; return ok }()
+
+func has5xxJSONOther(modes []fakeprom.Mode) bool {
+	for _, m := range modes {
+		if is5xxJSONOther(m) {
+			return true
+		}
+	}
+	return false
+}
+
+func eitherWay(m fakeprom.Mode) bool {
+	return m == fakeprom.ModeTruncated || (tolerate5xxJSON && is5xxJSONOther(m))
+}
+
 type outcome struct {
 	contacted []bool
 	okFrom    int // -1: an error is returned
@@ -236,7 +259,11 @@ type outcome struct {
 }
 
 func isUnsupportedCell(endpoint string, m fakeprom.Mode) bool {
-	return m == fakeprom.ModeNotFound && (endpoint == "config" || endpoint == "flags" || endpoint == "metadata")
+	is404 := m == fakeprom.ModeNotFound
+	if code, _, ok := m.HTTP(); ok && code == 404 {
+		is404 = true
+	}
+	return is404 && (endpoint == "config" || endpoint == "flags" || endpoint == "metadata")
 }
 
 // expected lists the outcomes the failover contract allows for a mode assignment.
@@ -256,10 +283,10 @@ func expected(modes []fakeprom.Mode, endpoint string) (outs []outcome, unsupport
 		switch {
 		case m == fakeprom.ModeHealthy:
 			outs = append(outs, outcome{snap(), i, -1})
-		case m.Unavailable():
-			walk(i + 1)
-		case m == fakeprom.ModeTruncated:
+		case eitherWay(m):
 			outs = append(outs, outcome{snap(), -1, i})
+			walk(i + 1)
+		case m.Unavailable():
 			walk(i + 1)
 		case isUnsupportedCell(endpoint, m):
 			unsupported = true
@@ -287,7 +314,7 @@ func checkError(err error, i int, m fakeprom.Mode, url string, required bool) er
 	if fge.IsStrict() != required {
 		return fmt.Errorf("FailoverGroupError.IsStrict()=%v but required=%v", fge.IsStrict(), required)
 	}
-	if m == fakeprom.ModeTruncated {
+	if eitherWay(m) {
 		return nil
 	}
 	if got := promapi.IsUnavailableError(err); got != m.Unavailable() {
@@ -300,6 +327,17 @@ func checkError(err error, i int, m fakeprom.Mode, url string, required bool) er
 		}
 		if string(ae.ErrorType) != typ || ae.Err != m.ErrorText(i) {
 			return fmt.Errorf("upstream %d answered {errorType:%q error:%q}, returned APIError{%q %q}", i, typ, m.ErrorText(i), ae.ErrorType, ae.Err)
+		}
+	}
+	if code, body, ok := m.HTTP(); ok {
+		switch {
+		case strings.HasPrefix(body, "json-") && code/100 == 4:
+			var ae promapi.APIError
+			if !errors.As(err, &ae) || ae.Err != m.ErrorText(i) {
+				return fmt.Errorf("upstream %d answered %d with a JSON error %q; returned error does not carry it: %v", i, code, m.ErrorText(i), err)
+			}
+		case !strings.HasPrefix(body, "json-") && !strings.Contains(err.Error(), fmt.Sprint(code)):
+			return fmt.Errorf("upstream %d answered status %d; returned error does not say so: %v", i, code, err)
 		}
 	}
 	switch m {
@@ -319,6 +357,7 @@ type info struct {
 	class      string
 	nontrivial bool
 	observed   string
+	knownHits  []string // known-finding classes this case ran into (tolerated because listed)
 }
 
 func catOf(endpoint string, m fakeprom.Mode) string {
@@ -382,8 +421,11 @@ func checkFailover(c Case) (inf info, err error) {
 		return inf, nil // no crash is all that is asked of these cells
 	}
 
-	observed, _, jerr := judgeCall(g, modes, outs, make([]int, len(g.ups)), a, c.Required)
+	observed, oi, jerr := judgeCall(g, modes, outs, make([]int, len(g.ups)), a, c.Required)
 	inf.observed = observed
+	if jerr == nil && outs[oi].errFrom >= 0 && is5xxJSONOther(modes[outs[oi].errFrom]) {
+		inf.knownHits = append(inf.knownHits, class5xxJSON)
+	}
 	if jerr != nil {
 		return inf, fmt.Errorf("endpoint=%s modes=%v required=%v slices=%d: %v; %s", c.Endpoint, c.Modes, c.Required, c.Slices, jerr, observed)
 	}
@@ -520,10 +562,10 @@ func expectedSeq(modes []fakeprom.Mode, endpoint string, cached []bool) (outs []
 		switch {
 		case m == fakeprom.ModeHealthy:
 			outs = append(outs, outcome{snap(), i, -1})
-		case m.Unavailable():
-			walk(i + 1)
-		case m == fakeprom.ModeTruncated:
+		case eitherWay(m):
 			outs = append(outs, outcome{snap(), -1, i})
+			walk(i + 1)
+		case m.Unavailable():
 			walk(i + 1)
 		case isUnsupportedCell(endpoint, m):
 			unsupported = true
@@ -614,6 +656,9 @@ func checkSequence(c Case) (inf info, err error) {
 					hist = append(hist, fmt.Sprint(p.Modes))
 				}
 				return inf, fmt.Errorf("%s, fault history %s: %v; %s", where, strings.Join(hist, " -> "), jerr, observed)
+			}
+			if o := outs[oi]; o.errFrom >= 0 && is5xxJSONOther(modes[o.errFrom]) {
+				inf.knownHits = append(inf.knownHits, class5xxJSON)
 			}
 			if o := outs[oi]; o.okFrom >= 0 {
 				cached[req][o.okFrom] = true
@@ -835,6 +880,10 @@ func checkChecks(c Case) (inf info, err error) {
 			return inf, fmt.Errorf("check %s, every upstream unavailable (%v, required=%v): reported a finding about the rule instead of the outage: %q (%s) %s",
 				c.Check, c.Modes, c.Required, p.Summary, p.Severity, text)
 		}
+		if p.Severity != want && tolerate5xxJSON && has5xxJSONOther(modes) {
+			inf.knownHits = append(inf.knownHits, class5xxJSON)
+			continue
+		}
 		if p.Severity != want {
 			return inf, fmt.Errorf("check %s, every upstream unavailable (%v, required=%v): outage reported with severity %s, expected %s: %s",
 				c.Check, c.Modes, c.Required, p.Severity, want, text)
@@ -880,13 +929,32 @@ func modeNames() []string {
 	return out
 }
 
+// status codes of the two error classes (registered with net/http or not) and the body kinds they come with
+var (
+	codes5xx  = []int{500, 502, 503, 504, 507, 509, 520, 521, 522, 523, 524, 525, 526, 527, 530, 598, 599}
+	bodies5xx = []string{"empty", "html", "text", "truncjson", "json-server_error", "json-internal", "json-unavailable"}
+	codes4xx  = []int{400, 401, 403, 404, 408, 413, 422, 429, 499}
+	bodies4xx = []string{"empty", "html", "text", "truncjson", "json-bad_data", "json-execution"}
+)
+
+// drawMode resolves the placeholders "5xx*" / "4xx*" into a parametrised mode; other names pass through.
+func drawMode(t *rapid.T, name, label string) string {
+	switch name {
+	case "5xx*":
+		return string(fakeprom.HTTPMode(rapid.SampledFrom(codes5xx).Draw(t, label+".code"), rapid.SampledFrom(bodies5xx).Draw(t, label+".body")))
+	case "4xx*":
+		return string(fakeprom.HTTPMode(rapid.SampledFrom(codes4xx).Draw(t, label+".code"), rapid.SampledFrom(bodies4xx).Draw(t, label+".body")))
+	}
+	return name
+}
+
 func genFailover(t *rapid.T) Case {
 	c := Case{Kind: "failover"}
 	c.Endpoint = rapid.SampledFrom(fakeprom.Endpoints).Draw(t, "endpoint")
 	n := rapid.SampledFrom([]int{1, 2, 2, 3, 3, 3}).Draw(t, "upstreams")
 	// the timeout mode costs a second per contact: drawn less often in the quick tier, never twice in a row
 	pool := modeNames()
-	weighted := append(append([]string{}, pool...), pool...)
+	weighted := append(append([]string{"5xx*", "5xx*", "5xx*", "4xx*", "4xx*"}, pool...), pool...)
 	for i := 0; i < len(weighted); i++ {
 		if weighted[i] == string(fakeprom.ModeTimeout) {
 			weighted = append(weighted[:i], weighted[i+1:]...)
@@ -898,13 +966,13 @@ func genFailover(t *rapid.T) Case {
 		var m string
 		switch k := rapid.IntRange(0, 9).Draw(t, fmt.Sprintf("bias%d", i)); {
 		case i < n-1 && k < 6:
-			m = rapid.SampledFrom([]string{"refused", "500", "503", "server_error", "500", "refused", "timeout"}).Draw(t, fmt.Sprintf("umode%d", i))
+			m = rapid.SampledFrom([]string{"refused", "500", "503", "server_error", "5xx*", "5xx*", "5xx*", "refused", "timeout"}).Draw(t, fmt.Sprintf("umode%d", i))
 		case i == n-1 && k < 6:
-			m = rapid.SampledFrom([]string{"healthy", "healthy", "bad_data", "execution", "404", "truncated"}).Draw(t, fmt.Sprintf("dmode%d", i))
+			m = rapid.SampledFrom([]string{"healthy", "healthy", "healthy", "bad_data", "execution", "404", "truncated", "4xx*"}).Draw(t, fmt.Sprintf("dmode%d", i))
 		default:
 			m = rapid.SampledFrom(weighted).Draw(t, fmt.Sprintf("mode%d", i))
 		}
-		c.Modes = append(c.Modes, m)
+		c.Modes = append(c.Modes, drawMode(t, m, fmt.Sprintf("http%d", i)))
 	}
 	c.Required = rapid.Bool().Draw(t, "required")
 	if c.Endpoint == "query_range" {
@@ -951,6 +1019,9 @@ func genSequence(t *rapid.T) Case {
 		ph := Phase{}
 		for i := 0; i < n; i++ {
 			m := per[i][p]
+			if (m == "500" || m == "503") && rapid.Bool().Draw(t, fmt.Sprintf("anycode%d.%d", p, i)) {
+				m = drawMode(t, "5xx*", fmt.Sprintf("http%d.%d", p, i))
+			}
 			if m == "404" && endpoint != "query" && endpoint != "query_range" {
 				m = "bad_data" // 404 there is the "unsupported API" feature, which outlives the phase
 			}
@@ -1068,7 +1139,8 @@ func genChecks(t *rapid.T) Case {
 	n := rapid.IntRange(1, 3).Draw(t, "upstreams")
 	for i := 0; i < n; i++ {
 		// timeout is rare here: an outage of n timing-out upstreams costs n seconds per API call of the check
-		m := rapid.SampledFrom([]string{"refused", "500", "503", "server_error", "refused", "500", "503", "server_error", "500", "refused", "503", "timeout"}).Draw(t, fmt.Sprintf("mode%d", i))
+		m := rapid.SampledFrom([]string{"refused", "500", "503", "server_error", "refused", "5xx*", "5xx*", "5xx*", "5xx*", "refused", "503", "timeout"}).Draw(t, fmt.Sprintf("mode%d", i))
+		m = drawMode(t, m, fmt.Sprintf("http%d", i))
 		if m == "timeout" && (n > 1 || c.Check == "promql/series" || c.Check == "alerts/count") {
 			m = "500"
 		}
@@ -1151,6 +1223,11 @@ func (r *recorder) judge(c Case, inf info, err error) error {
 	}
 	c.Class = inf.class
 	r.rec.Case(inf.class, inf.nontrivial, caseKey(c), func() any { return c })
+	for _, cl := range inf.knownHits {
+		if id, ok := r.known[cl]; ok {
+			r.rec.KnownHit(id, c)
+		}
+	}
 	if err == nil {
 		return nil
 	}
@@ -1219,6 +1296,27 @@ func TestFaultTable(t *testing.T) {
 				} else {
 					cells = append(cells, Case{Kind: "failover", Endpoint: ep, Modes: tp, Required: req})
 				}
+			}
+		}
+	}
+	// the two status classes, code by code and body by body: alone, and in front of a healthy upstream
+	for _, ep := range fakeprom.Endpoints {
+		sl := 0
+		if ep == "query_range" {
+			sl = 1
+		}
+		add := func(m fakeprom.Mode) {
+			cells = append(cells, Case{Kind: "failover", Endpoint: ep, Modes: []string{string(m)}, Slices: sl})
+			cells = append(cells, Case{Kind: "failover", Endpoint: ep, Modes: []string{string(m), "healthy"}, Required: true, Slices: sl})
+		}
+		for _, code := range codes5xx {
+			for _, b := range bodies5xx {
+				add(fakeprom.HTTPMode(code, b))
+			}
+		}
+		for _, code := range codes4xx {
+			for _, b := range bodies4xx {
+				add(fakeprom.HTTPMode(code, b))
 			}
 		}
 	}
